@@ -45,6 +45,7 @@ class SokobanH(Harness):
     INVALID = "ignore"
     TIME_LIMIT = True
     REWARD_VARIANTS = [{}, {"reward_fn": _sparse()}]
+    REF_REWARD_VARIANTS = True   # ref_step follows the configured reward function (C09 runs the variants too)
 
     def sparse(self):
         return type(self.env.reward_fn).__name__ == "SparseReward"
